@@ -111,7 +111,6 @@ pub fn unhex(s: &str) -> Option<Vec<u8>> {
         .collect()
 }
 
-/// run `f`, mapping a panic to `None`; the panic message is returned separately
 thread_local! {
     pub static GUARD_DEPTH: std::cell::Cell<u32> = const { std::cell::Cell::new(0) };
 }
